@@ -47,7 +47,12 @@ CONTRACT = {
     "isfloattype": (["builtins.float"], False),
     "ispatterntype": (["re.Pattern"], False),
     "ispathtype": (["pathlib.PurePath"], False),
+    # structural flavours: the class test must be transitive (issubclass / MRO membership), so subclasses agree with the runtime
+    "isnamedtuple": (["builtins.tuple"], False),
+    "istypedtuple": (["builtins.tuple"], False),
+    "istypeddict": (["builtins.dict"], False),
 }
+STRUCTURAL = {"isnamedtuple", "istypedtuple", "istypeddict"}
 
 
 def origin_map_kinds(prog: Program, rep: Report, rule="R17.1"):
@@ -137,6 +142,9 @@ def predicate_classes(prog: Program, name: str):
             for s in T.walk(tm):
                 if s[0] == "cmp" and s[1] == "in" and T.refname(s[3]) and T.refname(s[3]).startswith(C.INSP + "._"):
                     extra_membership.append(T.refname(s[3]))
+                # `X in {*inspect.getmro(obj)}` / `X in obj.__mro__` is a transitive class test as well
+                if s[0] == "cmp" and s[1] == "in" and T.refname(s[2]) and (T.contains(s[3], lambda y: T.is_call_to(y, "inspect.getmro")) or T.contains(s[3], lambda y: y[0] == "attr" and y[2] == "__mro__")):
+                    classes.append(T.refname(s[2]))
     return {"classes": sorted(set(classes)), "via_origin": via_origin, "raising": raising, "membership": sorted(set(extra_membership)), "loc": f.loc}
 
 
@@ -248,7 +256,7 @@ def r17_6(prog, rep):
     n = 0
     for name, (bases, _) in CONTRACT.items():
         f = prog.functions.get(f"{C.INSP}.{name}")
-        if f is None:
+        if f is None or name in STRUCTURAL:
             continue
         dis = []
         for a in C.catalogue():
@@ -283,9 +291,30 @@ def run(prog: Program, rep: Report, tier: str):
     rep.rule("R17.4", "raising issubclass predicates only behind the special-form filters", floor=20)
     rep.rule("R17.5", "BUILTIN ⊂ STDLIB; tuple forms derived from the sets", floor=5)
     rep.rule("R17.6", "abstract predicate evaluation agrees with the runtime hierarchy on the catalogue", floor=20)
+    rep.rule("R17.7", "memoised accessors are stable across equal-but-differently-spelled annotations (shared with R12.3)", floor=2)
     pairs, loc = origin_map_kinds(prog, rep)
     r17_2(prog, rep, pairs, loc)
     facts = r17_3(prog, rep)
     r17_4(prog, rep, facts)
     r17_5(prog, rep)
     r17_6(prog, rep)
+    # stability across calls / independence of spelling: memoised accessors must not expose the representation of an
+    # annotation that compares equal to a differently spelled one (shared with R12.3, restricted to py/inspection.py)
+    from ..report import Report as _R, load_known
+    from . import c12
+
+    sub = _R("C17", tier)
+    sub.rule("R12.3", "", 0)
+    c12.r12_3(prog, sub)
+    known12 = {e["key"] for e in load_known().get("open", []) if e.get("property") == "C12"}
+    for o in sub.obligations:
+        if "@typelib.py.inspection." not in o.key:
+            continue
+        if o.status == "violated" and o.key in known12:
+            # recorded once, under C12 (same construct, same witness); C17 does not repeat it
+            rep.held("R17.7", o.key.split("@", 1)[1].split("#")[0], o.loc, "representation exposure of this memoised accessor is the C12 known finding " + o.key, detail="key", nontrivial=False)
+            continue
+        o.key = o.key.replace("R12.3@", "R17.7@")
+        o.rule = "R17.7"
+        rep.obligations.append(o)
+        rep.rules["R17.7"]["instances"] += 1
